@@ -1,7 +1,9 @@
 package props
 
 import (
+	"encoding/json"
 	"math/big"
+	"os"
 	"testing"
 
 	sdkmath "cosmossdk.io/math"
@@ -19,7 +21,7 @@ func init() {
 		ID: "C02",
 		Rule: "rapid histories of the world machine weighted to share-moving operations (3+ co-delegators, slashes to reach rates != 1), plus function-level generation of the share<->token conversions; " +
 			"non-trivial = a delegate/undelegate touched a pool that has other delegators and an exchange rate != 1; distinct = hash of the (kind, outcome) sequence",
-		Gen:        GenOpts{Weights: w, HostilePct: 5, ExtremePct: 0, MaxDt: 30, Anchor: true, Tempos: []int{4, 12, 40}, CapBits: 90},
+		Gen:        GenOpts{Weights: w, HostilePct: 5, ExtremePct: 0, MaxDt: 30, Anchor: true, Focus: true, Tempos: []int{4, 12, 40}, CapBits: 90},
 		MinSteps:   20,
 		MaxSteps:   70,
 		Config:     worldConfig,
@@ -54,16 +56,111 @@ func decFromRaw(raw *big.Int) sdkmath.LegacyDec {
 	return sdkmath.LegacyNewDecFromBigIntWithPrec(raw, 18)
 }
 
+// shareFnCase is one function-level case (all values as decimal strings of raw integers).
+type shareFnCase struct {
+	S, A, Sh, X string
+	Down      int
+}
+
+// checkShareFns compares TokensFromShares / SharesFromTokens with exact integer arithmetic.
+// skipped=true means the inputs are beyond the number type's documented range.
+func checkShareFns(c shareFnCase) (v *Violation, skipped bool) {
+	one := pow10(18)
+	S, A, s, x := amt(c.S), amt(c.A), amt(c.Sh), amt(c.X)
+	// input-domain frontier: the 18-decimal type holds at most 315 bits; products beyond that
+	// panic by design of the number type (a fact about the domain, not a violation)
+	if new(big.Int).Mul(s, A).BitLen() > 300 || new(big.Int).Mul(S, x).BitLen() > 300 ||
+		(S.Sign() > 0 && new(big.Int).Quo(new(big.Int).Mul(new(big.Int).Mul(s, A), one), S).BitLen() > 300) {
+		return nil, true
+	}
+	Sd, sd, Ai, xi := decFromRaw(S), decFromRaw(s), sdkmath.NewIntFromBigInt(A), sdkmath.NewIntFromBigInt(x)
+	got, err := delegationkeeper.TokensFromShares(sd, Sd, Ai)
+	switch {
+	case s.Cmp(S) > 0:
+		if err == nil {
+			return violation("C02.F1.tokens-error", "share %s > total %s accepted", s, S), false
+		}
+	case S.Sign() == 0 && A.Sign() == 0:
+		if err != nil || !got.IsZero() {
+			return violation("C02.F1.tokens-zero", "(0,0,0) -> %v %v", got, err), false
+		}
+	case S.Sign() == 0:
+		if err == nil {
+			return violation("C02.F1.tokens-error", "zero total share with amount %s accepted", A), false
+		}
+	default:
+		if err != nil {
+			return violation("C02.F1.tokens-error", "unexpected error %v for s=%s S=%s A=%s", err, s, S, A), false
+		}
+		num := new(big.Int).Mul(s, A)
+		fl, rem := new(big.Int).QuoRem(num, S, new(big.Int))
+		g := got.BigInt()
+		if g.Cmp(fl) != 0 {
+			// floor+1 is only admissible when the fractional part is within 1e-18 of 1
+			up := new(big.Int).Add(fl, big.NewInt(1))
+			lim := new(big.Int).Mul(new(big.Int).Sub(S, rem), one)
+			if g.Cmp(up) != 0 || lim.Cmp(S) > 0 {
+				return violation("C02.F2.tokens-value", "TokensFromShares(%s,%s,%s)=%s, exact floor %s", s, S, A, g, fl), false
+			}
+		}
+		if s.Cmp(S) == 0 && g.Cmp(A) != 0 {
+			return violation("C02.F3.tokens-all", "all shares give %s of pool %s", g, A), false
+		}
+		if s.Sign() > 0 && c.Down > 0 {
+			s2 := new(big.Int).Sub(s, big.NewInt(int64(c.Down)))
+			if s2.Sign() >= 0 {
+				g2, err2 := delegationkeeper.TokensFromShares(decFromRaw(s2), Sd, Ai)
+				if err2 != nil || g2.BigInt().Cmp(g) > 0 {
+					return violation("C02.F4.tokens-monotone", "f(%s)=%v > f(%s)=%s (err %v)", s2, g2, s, g, err2), false
+				}
+			}
+		}
+	}
+	sh, err := delegationkeeper.SharesFromTokens(Sd, xi, Ai)
+	switch {
+	case A.Sign() == 0 && S.Sign() == 0:
+		if err != nil || !sh.IsZero() {
+			return violation("C02.F5.shares-zero", "%v %v", sh, err), false
+		}
+	case A.Sign() == 0:
+		if err == nil {
+			return violation("C02.F5.shares-error", "zero pool amount with total share %s accepted", S), false
+		}
+	default:
+		if err != nil {
+			return violation("C02.F5.shares-error", "%v", err), false
+		}
+		want := new(big.Int).Mul(S, x)
+		want.Quo(want, A)
+		if sh.BigInt().Cmp(want) != 0 {
+			return violation("C02.F6.shares-value", "SharesFromTokens(%s,%s,%s)=%s raw, exact floor %s", S, x, A, sh.BigInt(), want), false
+		}
+	}
+	return nil, false
+}
+
 func TestC02Fn(t *testing.T) {
 	const prop = "C02"
 	defer finish(t, prop)
 	st := getStats(prop)
 	one := pow10(18)
+	if f := os.Getenv("VERIF_REPLAY"); f != "" {
+		var cf CaseFile
+		b, _ := os.ReadFile(f)
+		var c shareFnCase
+		if json.Unmarshal(b, &cf) != nil || json.Unmarshal(cf.Extra, &c) != nil {
+			t.Fatalf("replay: cannot parse %s", f)
+		}
+		lastCase = &cf
+		if v, _ := checkShareFns(c); v != nil {
+			t.Fatalf("VIOLATION %s", v.Error())
+		}
+		return
+	}
 	rapid.Check(t, func(rt *rapid.T) {
-		// total share S (raw, 18 decimals), pool amount A, staker share s <= S
 		S := drawBig(rt, 170, "S")
 		var A *big.Int
-		switch rapid.IntRange(0, 4).Draw(rt, "Aclass") {
+		switch uniform(rt, 5, "Aclass") {
 		case 0:
 			A = big.NewInt(0)
 		case 1: // rate 1
@@ -80,7 +177,7 @@ func TestC02Fn(t *testing.T) {
 			A = drawBig(rt, 60, "A")
 		}
 		var s *big.Int
-		switch rapid.IntRange(0, 3).Draw(rt, "sclass") {
+		switch uniform(rt, 6, "sclass") {
 		case 0:
 			s = new(big.Int).Set(S)
 		case 1:
@@ -95,86 +192,21 @@ func TestC02Fn(t *testing.T) {
 			}
 		}
 		x := drawBig(rt, 64, "x")
+		c := shareFnCase{S: S.String(), A: A.String(), Sh: s.String(), X: x.String(), Down: rapid.IntRange(1, 1000).Draw(rt, "down")}
+		extra, _ := json.Marshal(c)
+		cf := &CaseFile{Property: prop, Test: "TestC02Fn", Extra: extra}
+		lastCase = cf
 		nontrivial := S.Sign() > 0 && A.Sign() > 0 && s.Sign() > 0 && s.Cmp(S) < 0
-		shape := "fn"
-		if nontrivial {
-			shape = "fn/" + S.Text(36) + "/" + A.Text(36) + "/" + s.Text(36) + "/" + x.Text(36)
-		}
-
-		// input-domain frontier: the 18-decimal type holds at most 315 bits; products beyond that
-		// panic by design of the number type (a fact about the domain, not a violation)
-		if new(big.Int).Mul(s, A).BitLen() > 300 || new(big.Int).Mul(S, x).BitLen() > 300 ||
-			(S.Sign() > 0 && new(big.Int).Quo(new(big.Int).Mul(new(big.Int).Mul(s, A), one), S).BitLen() > 300) {
+		v, skipped := checkShareFns(c)
+		if skipped {
 			statsMu.Lock()
 			st.Labels["fn-skipped-overflow-frontier"]++
 			statsMu.Unlock()
 			return
 		}
-		Sd, sd, Ai, xi := decFromRaw(S), decFromRaw(s), sdkmath.NewIntFromBigInt(A), sdkmath.NewIntFromBigInt(x)
-		// --- TokensFromShares
-		got, err := delegationkeeper.TokensFromShares(sd, Sd, Ai)
-		switch {
-		case s.Cmp(S) > 0:
-			if err == nil {
-				rt.Fatalf("VIOLATION C02.F1.tokens-error: share %s > total %s accepted", s, S)
-			}
-		case S.Sign() == 0 && A.Sign() == 0:
-			if err != nil || !got.IsZero() {
-				rt.Fatalf("VIOLATION C02.F1.tokens-zero: (0,0,0) -> %v %v", got, err)
-			}
-		case S.Sign() == 0:
-			if err == nil {
-				rt.Fatalf("VIOLATION C02.F1.tokens-error: zero total share with amount %s accepted", A)
-			}
-		default:
-			if err != nil {
-				rt.Fatalf("VIOLATION C02.F1.tokens-error: unexpected error %v for s=%s S=%s A=%s", err, s, S, A)
-			}
-			num := new(big.Int).Mul(s, A)
-			fl, rem := new(big.Int).QuoRem(num, S, new(big.Int))
-			g := got.BigInt()
-			if g.Cmp(fl) != 0 {
-				// floor+1 is only admissible when the fractional part is within 1e-18 of 1
-				up := new(big.Int).Add(fl, big.NewInt(1))
-				lim := new(big.Int).Mul(new(big.Int).Sub(S, rem), one) // (1-frac)*S*1e18 <= S  <=> 1-frac <= 1e-18
-				if g.Cmp(up) != 0 || lim.Cmp(S) > 0 {
-					rt.Fatalf("VIOLATION C02.F2.tokens-value: TokensFromShares(%s,%s,%s)=%s, exact floor %s", s, S, A, g, fl)
-				}
-			}
-			if s.Cmp(S) == 0 && g.Cmp(A) != 0 {
-				rt.Fatalf("VIOLATION C02.F3.tokens-all: all shares give %s of pool %s", g, A)
-			}
-			// monotone in s
-			if s.Sign() > 0 {
-				s2 := new(big.Int).Sub(s, big.NewInt(int64(rapid.IntRange(1, 1000).Draw(rt, "down"))))
-				if s2.Sign() >= 0 {
-					g2, err2 := delegationkeeper.TokensFromShares(decFromRaw(s2), Sd, Ai)
-					if err2 != nil || g2.BigInt().Cmp(g) > 0 {
-						rt.Fatalf("VIOLATION C02.F4.tokens-monotone: f(%s)=%v > f(%s)=%s (err %v)", s2, g2, s, g, err2)
-					}
-				}
-			}
-		}
-		// --- SharesFromTokens
-		sh, err := delegationkeeper.SharesFromTokens(Sd, xi, Ai)
-		switch {
-		case A.Sign() == 0 && S.Sign() == 0:
-			if err != nil || !sh.IsZero() {
-				rt.Fatalf("VIOLATION C02.F5.shares-zero: %v %v", sh, err)
-			}
-		case A.Sign() == 0:
-			if err == nil {
-				rt.Fatalf("VIOLATION C02.F5.shares-error: zero pool amount with total share %s accepted", S)
-			}
-		default:
-			if err != nil {
-				rt.Fatalf("VIOLATION C02.F5.shares-error: %v", err)
-			}
-			want := new(big.Int).Mul(S, x)
-			want.Quo(want, A)
-			if sh.BigInt().Cmp(want) != 0 {
-				rt.Fatalf("VIOLATION C02.F6.shares-value: SharesFromTokens(%s,%s,%s)=%s raw, exact floor %s", S, x, A, sh.BigInt(), want)
-			}
+		if v != nil {
+			cf.Violation = v.Error()
+			rt.Fatalf("VIOLATION %s", v.Error())
 		}
 		statsMu.Lock()
 		st.Evaluations++
@@ -182,7 +214,11 @@ func TestC02Fn(t *testing.T) {
 		if nontrivial {
 			st.Labels["fn-nontrivial"]++
 			if len(st.NonTrivial) < 20000 {
-				st.NonTrivial[shortHash(shape)] = true
+				st.NonTrivial[shortHash(string(extra))] = true
+			}
+			if st.Labels["fn-samples"] < 2 {
+				st.Labels["fn-samples"]++
+				st.Samples = append(st.Samples, extra)
 			}
 		}
 		statsMu.Unlock()
